@@ -277,6 +277,13 @@ func genU32(r *Rand) uint32 {
 var yearPool = []int{1, 2, 999, 1000, 1969, 1999, 2000, 2024, 2068, 2069, 9999}
 
 func genYMD(r *Rand) (int, int, int) {
+	if r.Intn(6) == 0 { // the two days around a year end (leap and common years): day 366 / day 1
+		y := []int{2024, 2020, 2000, 2023, 1999, 2028, 2100}[r.Intn(7)]
+		if r.Intn(2) == 0 {
+			return y, 12, 31
+		}
+		return y + 1, 1, 1
+	}
 	y := yearPool[r.Intn(len(yearPool))]
 	if r.Intn(2) == 0 {
 		y = 1 + r.Intn(9999)
